@@ -884,6 +884,9 @@ class RZILTransformer(Transformer):
     def mem_store(self, items):
         self.ext.set_token_meta_data("mem_store")
         va = items[3]
+        if isinstance(va, Pure) and va.value_type.bit_width != 32:
+            # Virtual addresses are 32bit wide.
+            va = self.init_a_cast(ValueType(False, 32), va)
         data: Pure = items[4]
         operation_value_type = ValueType(items[1] == "s", items[2])
         if operation_value_type != data.value_type:
@@ -902,6 +905,9 @@ class RZILTransformer(Transformer):
         va = items[3]
         if not isinstance(va, Pure):
             va = self.il_ops_holder.get_op_by_name(va.value)
+        if va.value_type.bit_width != 32:
+            # Virtual addresses are 32bit wide.
+            va = self.init_a_cast(ValueType(False, 32), va)
 
         return self.add_op(MemLoad(f"ml_{va.pure_var()}", va, mem_acc_type))
 
